@@ -15,7 +15,7 @@ def log(*a):
 class Harness:
     """one harness = one entry function explored symbolically"""
     def __init__(self, name, pkg, files, models=('std', 'crypto'), summaries=(), panic_mode='ignore', sched=False,
-                 bounds='', load=None, timeout_s=600, go_mode='ignore', setup=None, must_reach=(), assumptions=(), split_depth=None):
+                 bounds='', load=None, timeout_s=600, go_mode='ignore', setup=None, must_reach=(), assumptions=(), split_depth=None, crypto_mode='alg'):
         self.name = name            # Go function name
         self.pkg = pkg              # package dir relative to the module root, e.g. 'cashu'
         self.files = list(files)    # harness sources under /verif/harness/<pkg>/
@@ -31,6 +31,7 @@ class Harness:
         self.must_reach = must_reach
         self.assumptions = list(assumptions)
         self.split_depth = split_depth
+        self.crypto_mode = crypto_mode
     @property
     def entry(self): return '%s/%s.%s' % (MOD, self.pkg, self.name)
 
@@ -41,7 +42,7 @@ def overlays_for(harnesses, native=False):
     ov[os.path.join(REPO, 'verifrt', 'rt.go')] = os.path.join(VERIF, 'harness', 'rt', rt)
     for h in harnesses:
         for f in h.files:
-            ov[os.path.join(REPO, h.pkg, os.path.basename(f))] = os.path.join(VERIF, 'harness', f)
+            ov[os.path.join(REPO, f)] = os.path.join(VERIF, 'harness', f)
     return ov
 
 def frontend(harnesses, out, extra_overlays=None):
@@ -49,6 +50,9 @@ def frontend(harnesses, out, extra_overlays=None):
     for h in harnesses:
         pkgs.add('%s/%s' % (MOD, h.pkg))
         for p in h.load: pkgs.add(p)
+        pkgs |= {MOD + '/cashu/...', MOD + '/crypto'}
+        if h.pkg.startswith('mint'): pkgs.add(MOD + '/mint/...')
+        if h.pkg.startswith('wallet'): pkgs |= {MOD + '/wallet/...', MOD + '/mint/...'}
     ov = overlays_for(harnesses)
     if extra_overlays: ov.update(extra_overlays)
     cmd = [os.path.join(VERIF, 'bin', 'ssa2json'), '-o', out]
@@ -78,6 +82,7 @@ def make_engine(ir, h, known):
     from .models import summaries
     summaries.install(E, h.summaries)
     E.panic_mode = h.panic_mode
+    E.crypto_mode = h.crypto_mode
     E.go_mode = h.go_mode
     if h.sched:
         for f in E.funcs.values():
@@ -123,17 +128,30 @@ def compile_known(klist, hname):
     return res
 
 # ----------------------------------------------------------------------------- exploration
-def _worker(args):
-    irpath, h, known_raw, prefixes, deadline, seed = args
+_W = {}
+def _worker_init(irpath, h, known_raw, seed):
+    z3.set_param('smt.random_seed', seed % 1000)
+    ir = json.load(open(irpath))
+    _W['E'] = make_engine(ir, h, compile_known(known_raw, h.name)); _W['h'] = h
+
+def _fresh_stats():
+    return dict(paths=0, queries=0, solver_s=0.0, instrs=0, violations=[], known_hits={}, reached={}, asserts={},
+                funcs=set(), unsupported=[], unknown=0, samples=[])
+
+def _worker_task(args):
+    prefixes, budget, deadline = args
     try:
-        z3.set_param('smt.random_seed', seed % 1000)
-        ir = json.load(open(irpath))
-        E = make_engine(ir, h, compile_known(known_raw, h.name))
-        st = E.explore(h.entry, prefixes=prefixes, deadline=deadline)
-        st['funcs'] = sorted(st['funcs'])
+        E = _W['E']; h = _W['h']
+        E.stats = _fresh_stats()
+        E.work = list(reversed(prefixes))
+        n = 0
+        while E.work and n < budget and time.time() < deadline:
+            E.run_path(h.entry, E.work.pop()); n += 1
+        st = E.stats
+        st['funcs'] = sorted(st['funcs']); st['leftover_work'] = list(E.work); st['leftover'] = 0
         return st
     except Exception as e:
-        return dict(error=traceback.format_exc())
+        return dict(error=traceback.format_exc(), leftover_work=[])
 
 def merge(stats):
     out = dict(paths=0, queries=0, solver_s=0.0, instrs=0, violations=[], known_hits={}, reached={}, asserts={}, funcs=set(),
@@ -155,32 +173,34 @@ def merge(stats):
     return out
 
 def explore_parallel(irpath, h, known_raw, nproc, seed, deadline):
-    """seed prefixes breadth-first in-process, then farm them out"""
-    from . import core
-    ir = json.load(open(irpath))
-    E = make_engine(ir, h, compile_known(known_raw, h.name))
-    # phase 1: expand breadth-first until there is enough work to share
-    E.work = [[]]
-    target = nproc * 6
-    done_stats = []
-    t0 = time.time()
-    frontier = [[]]
-    # run paths one at a time; every executed path may push siblings
-    while E.work and len(E.work) < target and E.stats['paths'] < 40:
-        if time.time() > deadline: break
-        # take the shallowest prefix to widen quickly
-        E.work.sort(key=len, reverse=True)
-        E.run_path(h.entry, E.work.pop())
-    st0 = E.stats; st0['funcs'] = sorted(st0['funcs']); st0['leftover'] = 0
-    work = list(E.work)
-    if not work:
-        st0['wall_s'] = time.time() - t0
-        return merge([st0])
-    chunks = [[] for _ in range(min(len(work), nproc * 3))]
-    for i, w in enumerate(work): chunks[i % len(chunks)].append(w)
-    with multiprocessing.Pool(nproc) as pool:
-        res = pool.map(_worker, [(irpath, h, known_raw, c, deadline, seed) for c in chunks], chunksize=1)
-    return merge([st0] + res)
+    """dynamic work sharing: tasks = (prefixes, path budget); unfinished prefixes come back and are re-queued"""
+    queue = [[]]
+    results = []
+    pending = []
+    budget = 8
+    with multiprocessing.Pool(nproc, initializer=_worker_init, initargs=(irpath, h, known_raw, seed)) as pool:
+        while queue or pending:
+            if time.time() > deadline: break
+            # hand out work: split the queue into tasks for idle workers
+            while queue and len(pending) < nproc * 2:
+                k = max(1, min(len(queue) // (nproc * 2) or 1, 16))
+                task, queue = queue[:k], queue[k:]
+                pending.append(pool.apply_async(_worker_task, ((task, budget, deadline),)))
+            done = [p for p in pending if p.ready()]
+            if not done:
+                time.sleep(0.02); continue
+            for p in done:
+                pending.remove(p)
+                st = p.get()
+                queue += st.pop('leftover_work', [])
+                results.append(st)
+            npaths = sum(r.get('paths', 0) for r in results)
+            budget = 8 if npaths < 200 else 40
+        timed_out = bool(queue or pending)
+        if timed_out: pool.terminate()
+    out = merge(results)
+    out['timeout'] = timed_out; out['leftover'] = len(queue)
+    return out
 
 # ----------------------------------------------------------------------------- replay
 REPLAY_TEST = '''package %(pkgname)s
